@@ -4,8 +4,9 @@ Calibrated to the library's own statements (C13): a *declared* requirement is a 
 `requires(_size > 0)` of `covfie::array` — violating one makes the class template itself ill-formed, every API operation
 is rejected; a *structural* requirement is one the lookup path needs in order to type-check (a wrapper indexes its
 coordinate, so the coordinate must be a vector, …) — violating one leaves the type constructible but any lookup is
-rejected.  Nothing else is required (e.g. a storage order accepts any backend beneath it, `affine` accepts integer
-coordinates): where the library states nothing, the model accepts, and the compile matrix checks that g++ agrees. -/
+rejected.  Nothing else is required (e.g. `affine` accepts integer coordinates): where the library states nothing, the model
+accepts, and the compile matrix checks that g++ agrees — except for a storage order over something that is not indexed
+by a single natural number, which the documentation's kinds exclude and the code does not diagnose (`stated`). -/
 namespace Covfie.Kinds
 
 inductive SK | f32 | f64 | i32 | u32 | i64 | u64
@@ -102,6 +103,19 @@ def wellKinded (s : KStack) : Bool :=
   match kind s, lookupErr s with
   | .ok _, none => true
   | _, _ => false
+
+/-- The documentation gives a storage order the kind `ℕⁿ → Id(ℕ)`: what lies beneath it takes a *single natural-number
+    index* (memory, or anything indexed like memory).  The code states nothing of it (no `static_assert`), and whether a
+    storage order over, say, a float-indexed interpolator compiles depends on the build (the BMI2 path of `morton` forms
+    `std::integral_constant<float, …>`).  Such a stack neither respects the stated kinds nor violates a *stated* one: the
+    property claims nothing for it (`stated s = false`), and the compile matrix leaves it out. -/
+def stated : KStack → Bool
+  | .array _ _ | .constant _ _ _ _ | .identity _ _ => true
+  | .layout _ _ _ b =>
+      stated b && (match kind b with
+                   | .ok k => k.inDim == 1 && !k.inSk.isFloat
+                   | .error _ => true)
+  | .clamp b | .backup b | .affine b | .shuffle _ b | .cast _ b | .deref b | .interp _ _ _ b => stated b
 
 /-- size in bytes of the non-owning data (x86-64 layout: members in order, each aligned, total rounded up) -/
 def align (a n : Nat) : Nat := (n + a - 1) / a * a
